@@ -181,6 +181,31 @@ def closest_metric(ctx, rep, clause):
     cl = Canon(f.node)
     maxes = [norm_stmt(cl.resolve(c_.args[0])) for s_ in (lg.body if lg is not None else []) for c_ in ast.walk(s_)
              if isinstance(c_, ast.Call) and norm_stmt(c_.func) == 'max' and c_.args]
+    # the position of the chosen peak is found *inside the window* and re-based by the window start: an index taken in
+    # the whole list finds the first equal value anywhere (ties outside the window)
+    for mode_name, blk_ in (('closest', blk), ('largest', lg)):
+        apps = [c_ for s_ in (blk_.body if blk_ is not None else []) for c_ in ast.walk(s_)
+                if isinstance(c_, ast.Call) and isinstance(c_.func, ast.Attribute) and c_.func.attr == 'append' and c_.args]
+        ok_idx = False
+        shown = ''
+        if len(apps) == 1:
+            v = cl.resolve(apps[0].args[0])
+            shown = norm_stmt(v)[:110]
+            if isinstance(v, ast.BinOp) and isinstance(v.op, ast.Add):
+                for a_, b_ in ((v.left, v.right), (v.right, v.left)):
+                    if norm_stmt(a_) == 'indexes[0]' and isinstance(b_, ast.Call) and isinstance(b_.func, ast.Attribute) \
+                            and b_.func.attr == 'index' and b_.args:
+                        recv = norm_stmt(b_.func.value)
+                        inner = b_.args[0]
+                        # <window list>.index(min|max(<same window list>))
+                        if isinstance(inner, ast.Call) and norm_stmt(inner.func) in ('min', 'max') and inner.args and \
+                                norm_stmt(inner.args[0]) == recv and 'indexes[0]' in recv and 'indexes[1]' in recv:
+                            ok_idx = True
+        ob(rep, 'SIB-metric', f.fq, f"'{mode_name}' locates the chosen peak inside the window and re-bases it by the window "
+           f"start", ok_idx, 'indexes[0] + <window>.index(best(<window>))',
+           f"in mode '{mode_name}' the reported index is `{shown}`: it is not the position inside the window plus the "
+           f"window start, so a peak outside the tolerance window (an equal value elsewhere in the list) can be returned",
+           f.loc(blk_) if blk_ is not None else f.loc(), clause)
     ob(rep, 'SIB-metric', f.fq, "'largest' takes the maximum intensity inside the window",
        maxes == ['intensity_spectra[indexes[0]:indexes[1]]'], 'max over the window slice',
        "the 'largest' branch no longer maximises the intensities of exactly the window", f.loc(lg) if lg is not None
@@ -255,6 +280,32 @@ def window_bounds(ctx, rep, clause):
     rep.floor('KIND', 'comparisons against window bounds in get_matched_indices', n, 2)
 
 
+def peak_identity(ctx, rep, clause):
+    """get_matched_intensity_percentage counts every matched *peak* once: matches are grouped by a field of the
+    observed peak (FragmentMatch.mz), never by something derived from the theoretical fragment (several fragments can
+    match one peak, one fragment several peaks)"""
+    program = ctx.program
+    f = program.func(f'{SC}:get_matched_intensity_percentage')
+    fm = program.cls(f'{SC}:FragmentMatch')
+    fields = set(fm.field_names())
+    comps = [x for x in walk_own(f.node) if isinstance(x, ast.DictComp) and norm_stmt(x.generators[0].iter) == 'fragment_matches']
+    if len(comps) != 1:
+        raise AnalysisError('get_matched_intensity_percentage: the grouping of the matches was not found')
+    key = comps[0].key
+    reads = set()
+    if isinstance(key, ast.Attribute):
+        attr = key.attr
+        if attr in fields:
+            reads = {attr}
+        elif attr in fm.methods:
+            reads = {y.attr for y in ast.walk(fm.methods[attr].node) if isinstance(y, ast.Attribute) and
+                     norm_stmt(y.value) == 'self'}
+    ob(rep, 'SIB-index', f.fq, 'matched peaks are identified by the observed m/z', reads == {'mz'}, f'key reads {sorted(reads)}',
+       f'matches are grouped by `{norm_stmt(key)}`, which reads {sorted(reads) or "?"} of the match: grouping by anything '
+       f'of the theoretical fragment counts a peak matched by two fragments twice (fraction > 1) and drops peaks '
+       f'matched by the same fragment', f.loc(comps[0]), clause)
+
+
 def check(ctx, rep):
     rep.explanation = EXPLANATION
     an, program = ctx.analyzer, ctx.program
@@ -263,6 +314,7 @@ def check(ctx, rep):
     match_indexing(ctx, rep, 'C17c')
     closest_metric(ctx, rep, 'C17b')
     window_bounds(ctx, rep, 'C17a')
+    peak_identity(ctx, rep, 'C17d')
     callers = {f.fq for f in program.all_functions() if f.module.name == SC}
     n = add_fwd(rep, forwarding(an, program, ['tolerance_value', 'tolerance_type', 'mode', 'intensity_spectra'],
                                 callers=callers), 'C17c')
